@@ -11,7 +11,7 @@
    resolution; a repeated draw is byte-identical to the first. *)
 From Coq Require Import List NArith Bool.
 From SNT Require Export Base.Report Base.Outcome Image.KDTree Image.Octree Image.Quantize Image.Sixel
-     Image.SixelDraw Gen.TabSixel.
+     Image.SixelDraw Image.SixelCache Gen.TabSixel.
 Import ListNotations.
 Local Open Scope N_scope.
 
@@ -86,46 +86,44 @@ Fixpoint drawn_before (rows : list (list spx)) (seen : list (list (list spx) * l
   | (r, b) :: rest => if rows_eqb r rows then Some b else drawn_before rows rest
   end.
 
-Fixpoint cache_get (k : nat) (c : list (nat * list N)) : option (list N) :=
-  match c with
-  | [] => None
-  | (k2, v) :: r => if Nat.eqb k k2 then Some v else cache_get k r
-  end.
-
-(* one handler; model side: first draws of an image (by number) are encoded, repeated
-   draws come from the cache; specification side: EVERY draw must decode to the view it
-   was given, and a draw of a view whose content was drawn before must repeat those bytes *)
-Fixpoint run_draws (imgs : list (list (list spx))) (cache : list (nat * list N))
+(* one handler.  Model side: the handler's cache as modelled in Image/SixelCache.v (LRU list,
+   eviction above the regenerated IMAGE_CACHE_SIZE), keyed by the content hash the harness
+   observed for each image (Surface::hash): a hit must return the cached bytes, a miss must
+   be the encoding of the view under the observed strip order.  Specification side: EVERY
+   draw must decode to the view it was given, and a draw of a view whose content was drawn
+   before must repeat those bytes. *)
+Fixpoint run_draws (imgs : list (list (list spx) * N)) (st : hstate)
          (seen : list (list (list spx) * list N))
          (draws : list (nat * list N)) : bool * bool :=
   match draws with
   | [] => (true, true)
   | (k, impl) :: r =>
-      let rows := nth k imgs [] in
+      let '(rows, key) := nth k imgs ([], 0) in
       let a :=
-        match cache_get k cache with
+        match c_find key (fst st) with
         | Some bytes => nlist_eqb bytes impl
         | None => first_draw_agrees rows impl
         end in
+      let st' := snd (hdraw sixel_cache_limit st key (match impl with [] => None | _ => Some impl end)) in
       let h :=
         first_draw_holds rows impl &&
         match drawn_before rows seen with
         | Some bytes => nlist_eqb bytes impl
         | None => true
         end in
-      let '(a', h') := run_draws imgs ((k, impl) :: cache) ((rows, impl) :: seen) r in
+      let '(a', h') := run_draws imgs st' ((rows, impl) :: seen) r in
       (a && a', h && h')
   end.
 
 Inductive c12_case :=
   SIX (parents : list (list (list spx)))
-      (imgs : list (nat * option (nat * nat * nat * nat)))      (* parent number, crop *)
+      (imgs : list (nat * option (nat * nat * nat * nat) * N))  (* parent number, crop, observed content hash *)
       (draws : list (nat * list N)).
 
 Definition c12_check (c : c12_case) : bool * bool :=
   match c with
   | SIX parents imgs draws =>
-      run_draws (map (fun i => view_rows (nth (fst i) parents []) (snd i)) imgs) [] [] draws
+      run_draws (map (fun i => (view_rows (nth (fst (fst i)) parents []) (snd (fst i)), snd i)) imgs) ([], 0) [] draws
   end.
 
 Definition c12_report := report c12_check.
